@@ -116,6 +116,17 @@ def build_files(ctx, d):
         with open(os.path.join(d, name), 'w', encoding='ascii') as f:
             f.write(text)
         files.append(name)
+    # header values that the tool rewrites before judging them (a locale name with an encoding, with a modifier or territory that is
+    # dropped, an ISO 639-2 code, a date to be normalised), each in TWO files that differ otherwise: whatever is derived from a
+    # value in one file must be derived afresh, from the text, in the next file that carries the same value
+    for lang in ('de_DE.UTF-8', 'de_DE@euro', 'deu', 'ger', 'pl_PL', 'en_US.ISO-8859-1', 'sr_RS@latin', 'pt_BR.utf8@foo', 'EN_us', 'zh_CN.GB2312'):
+        for k, cs in enumerate(('UTF-8', 'ISO-8859-1')):
+            text = ('msgid ""\nmsgstr ""\n"PO-Revision-Date: 2012-11-0%d 14:42:07+0100\\n"\n"Content-Type: text/plain; charset=%s\\n"\n"Language: %s\\n"\n\n'
+                    'msgid "a%d"\nmsgstr "b"\n') % (k + 1, cs, lang, k)
+            name = 'lang-twin%d-%s.po' % (k, ''.join(c if c.isalnum() else '_' for c in lang))
+            with open(os.path.join(d, name), 'w', encoding='ascii') as f:
+                f.write(text)
+            files.append(name)
     for i in range(8 if ctx.quick() else 60):
         cat, _ = pogen.hostile_catalog(rng, nslots=3)
         name = 'gen%d.%s' % (i, rng.choice(['po', 'pot']))
@@ -296,7 +307,7 @@ def check(ctx):
         checker_cmd='tools/build.sh (coqc on Props/C03.v incl. vm_compute over the regenerated set-iteration sites) then coqc Audit_C03.v',
         rule='files = the repository\'s black-box PO/POT/MO files (every 3rd in quick) + catalogs exercising set/dict iteration + generated hostile catalogs; baseline = each file alone '
              '(-j1, PYTHONHASHSEED=0); configurations: all files under PYTHONHASHSEED in {0,1,2,3,random}; -j in {2,3,16}; random permutations and prefixes with -j 1/4; '
-             'packages (.deb/.dsc with rejected members) unpacked under different TMPDIR / seeds / -j; repeated files (also under -j 2/4: a b a, a a b b a); probe file after other files (history); -l pl under different seeds and -j. Each run must equal the concatenation of the baselines. '
+             'packages (.deb/.dsc with rejected members) unpacked under different TMPDIR / seeds / -j; repeated files (also under -j 2/4: a b a, a a b b a); pairs of files sharing a header value that the tool rewrites (locale names with encoding / modifier / territory / ISO 639-2 code, dates); probe file after other files (history); -l pl under different seeds and -j. Each run must equal the concatenation of the baselines. '
              'non-trivial = a configuration run, or a file whose baseline output is non-empty',
         explanation='Model-level theorems (parallel = sequential for every completion order; multi-file = concatenation; no order-sensitive set iteration in the regenerated ast table) '
                     'plus exploration of hash seeds, argument orders, prefixes/histories and job counts through the real CLI. Partial: real worker scheduling and process state are explored, not modelled.')
